@@ -1377,11 +1377,12 @@ class Vector():
 	def __lshift__(self, other):
 		""" The << operator behavior has been overridden to attempt to concatenate (append) the new array to the end of the first
 		"""
-		if self._dtype.kind in (bool, int) and isinstance(other, int):
+		if self._dtype is not None and self._dtype.kind in (bool, int) and isinstance(other, int):
 			warnings.warn(f"The behavior of >> and << have been overridden for concatenation. Use .bitshift() to shift bits.")
 
 		if isinstance(other, Vector):
-			if not self._dtype.nullable and not other.schema().nullable and self._dtype.kind != other.schema().kind:
+			# (an untyped empty vector and a Table have no dtype: nothing to compare)
+			if self._dtype is not None and other.schema() is not None and not self._dtype.nullable and not other.schema().nullable and self._dtype.kind != other.schema().kind:
 				raise SerifTypeError("Cannot concatenate two typesafe Vectors of different types")
 			# dtype is inferred from the concatenated values (never reuse self's dtype:
 			# the appended values may be None or of another kind)
@@ -1395,16 +1396,18 @@ class Vector():
 	def __rshift__(self, other):
 		""" The >> operator behavior has been overridden to add the column(s) of other to self
 		"""
-		if self._dtype.kind in (bool, int) and isinstance(other, int):
+		if self._dtype is not None and self._dtype.kind in (bool, int) and isinstance(other, int):
 			warnings.warn(f"The behavior of >> and << have been overridden for concatenation. Use .bitshift() to shift bits.")
 
 		if type(other).__name__ == 'Table':
-			if not self._dtype.nullable and not other.schema().nullable and self._dtype.kind != other.schema().kind:
+			# (an untyped empty vector and a Table have no dtype: nothing to compare)
+			if self._dtype is not None and other.schema() is not None and not self._dtype.nullable and not other.schema().nullable and self._dtype.kind != other.schema().kind:
 				raise SerifTypeError("Cannot concatenate two typesafe Vectors of different types")
 			return Vector((self,) + other.cols(),
 				dtype=self._dtype)
 		if isinstance(other, Vector):
-			if not self._dtype.nullable and not other.schema().nullable and self._dtype.kind != other.schema().kind:
+			# (an untyped empty vector and a Table have no dtype: nothing to compare)
+			if self._dtype is not None and other.schema() is not None and not self._dtype.nullable and not other.schema().nullable and self._dtype.kind != other.schema().kind:
 				raise SerifTypeError("Cannot concatenate two typesafe Vectors of different types")
 			return Vector((self,) + (other,),
 				dtype=self._dtype)
